@@ -172,11 +172,14 @@ def openUrl (allowInsecure : Bool) (p : Parts) : Except Err Decoded :=
       | none => .error .invalidUrlScheme
       | some (secure, dflt) =>
         let port := p.port.getD dflt
-        match decode p with
-        | .error e => .error e
-        | .ok o =>
-          if !secure && !allowInsecure then .error .insecureUrl
-          else .ok { secure := secure, host := host, port := port, auth := o.auth, vhost := o.vhost,
-                     heartbeat := o.heartbeat, channelMax := o.channelMax, timeoutMs := o.timeoutMs }
+        -- (fix D21) an insecure URL is refused as such by the secure-only entry points before
+        -- anything else about it is looked at
+        if !secure && !allowInsecure then .error .insecureUrl
+        else
+          match decode p with
+          | .error e => .error e
+          | .ok o =>
+            .ok { secure := secure, host := host, port := port, auth := o.auth, vhost := o.vhost,
+                  heartbeat := o.heartbeat, channelMax := o.channelMax, timeoutMs := o.timeoutMs }
 
 end AmqModel.Url
